@@ -1,8 +1,33 @@
 #!/bin/bash
-# runs the repository's baseline test-suite with the NNG_VERIF guard OFF
-set -e
+# runs the repository's baseline test-suite with the NNG_VERIF guard OFF (plain build of /repo's working tree).
+# Exit 0 iff every test of BASELINE.json's stable_pass list passes (tests that fail in the first parallel run
+# are re-run alone once: several use fixed ports/paths and collide with anything else running on the machine).
 B=${1:-/tmp/nngv/baseline-off}
 rm -rf "$B"; mkdir -p "$B"
-cmake -G Ninja -B "$B" -S /repo -DCMAKE_BUILD_TYPE=RelWithDebInfo >/dev/null
-cmake --build "$B" -j16 >/dev/null
-ctest --test-dir "$B" -j8 --timeout 900 --output-junit "$B/junit.xml"
+cmake -G Ninja -B "$B" -S /repo -DCMAKE_BUILD_TYPE=RelWithDebInfo >/dev/null || exit 2
+cmake --build "$B" -j16 >/dev/null || exit 2
+ctest --test-dir "$B" -j8 --timeout 900 --output-junit "$B/junit.xml" | tail -15
+python3 - "$B" <<'PY'
+import json, re, subprocess, sys
+b = sys.argv[1]
+base = json.load(open("/root/.vp/BASELINE.json"))
+stable = set(x.split("::")[0] for x in base.get("stable_pass", []))
+log = open(b + "/Testing/Temporary/LastTest.log", errors="replace").read() if False else ""
+failed = []
+try:
+    failed = [l.split(":", 1)[1].strip() for l in open(b + "/Testing/Temporary/LastTestsFailed.log")]
+except FileNotFoundError:
+    pass
+still = []
+for t in failed:
+    if t not in stable:
+        print("baseline_off: %s failed (not in the stable baseline: ignored)" % t)
+        continue
+    r = subprocess.run(["ctest", "--test-dir", b, "-R", "^" + re.escape(t) + "$", "--timeout", "900"], capture_output=True, text=True)
+    if r.returncode != 0:
+        still.append(t)
+    else:
+        print("baseline_off: %s failed in the parallel run, passes alone" % t)
+print("baseline_off: stable tests failing: %s" % (still or "none"))
+sys.exit(1 if still else 0)
+PY
